@@ -137,6 +137,22 @@ func genSchedOps(r *RNG, g *Gen, pl *Plan, task int) []Op {
 	return ops
 }
 
+// genThrashOps: every operation is a ParseRef / Parse on a shared parser with a base from the plan's
+// pool of distinct keys (see genSchedPlan).
+func genThrashOps(r *RNG, g *Gen, pl *Plan) []Op {
+	n := r.Range(3, 8)
+	var ops []Op
+	for i := 0; i < n; i++ {
+		p := r.Intn(len(pl.Parsers))
+		if r.Chance(4, 5) {
+			ops = append(ops, Op{K: "parse", P: p, D: i + 1, W: 1, B: QS(g.pick(g.themeURLs)), A: QS(g.pick(g.themeRefs))})
+		} else {
+			ops = append(ops, Op{K: "parse", P: p, D: i + 1, A: QS(g.pick(g.themeURLs))})
+		}
+	}
+	return ops
+}
+
 // c14Config draws a configuration for a shared parser. Result-changing options are fine here: the
 // oracle is "same as alone", not a semantic one.
 func c14Config(r *RNG) Config {
@@ -199,15 +215,43 @@ func genSchedPlan(master uint64, run int) Plan {
 		pl.Shared = append(pl.Shared, pre)
 		pl.SharedP = append(pl.SharedP, p)
 	}
-	if r.Chance(1, 2) {
+	thrash := false
+	switch r.Intn(8) {
+	case 0, 1, 2, 3:
 		g.setTheme() // tasks of this plan work on related inputs
+	case 4:
+		// "thrash": many distinct keys and the same few operations from every task - what a keyed
+		// cache, a pool or a memo table needs in order to collide, evict and be refilled concurrently
+		g.setTheme()
+		g.themeURLs = nil
+		n := r.Range(8, 16)
+		for i := 0; i < n; i++ {
+			g.themeURLs = append(g.themeURLs, g.pick(gSchemesSpecial[:5])+"://"+g.pick([]string{"h", "example.com", "a.b", "1.2.3.4", "x"})+g.pick([]string{"", ":81", ":8080"})+"/"+g.pick(corpusTokens)+g.pick([]string{"", "/", "/a/b", "?q", "/c?d#e"}))
+		}
+		thrash = true
 	}
 	nt := r.Range(2, 4)
+	if thrash {
+		nt = r.Range(3, 4)
+	}
 	for t := 0; t < nt; t++ {
+		if thrash {
+			pl.Tasks = append(pl.Tasks, genThrashOps(r, g, &pl))
+			continue
+		}
 		pl.Tasks = append(pl.Tasks, genSchedOps(r, g, &pl, t))
 	}
-	pl.Strategy = []string{"uniform", "uniform", "pct", "pct", "stall", "stall", "opwise", "sequential"}[r.Intn(8)]
+	if r.Chance(1, 2) {
+		// The run-alone reference normally comes first (its statement counts place the preemptions).
+		// It also warms every process-wide cache with exactly the keys the scheduled run will use, so
+		// half of the plans run the scheduled phase first, with strategies that need no counts.
+		pl.Order = "concurrent-first"
+		pl.Strategy = []string{"uniform", "opwise", "syncstall", "syncstall", "stallentry", "stallentry", "sequential", "uniform"}[r.Intn(8)]
+	} else {
+		pl.Strategy = []string{"uniform", "uniform", "pct", "pct", "stall", "stall", "opwise", "sequential", "syncstall", "stallentry"}[r.Intn(10)]
+	}
 	pl.FpEvery = r.Chance(1, 8)
+	pl.ParkInCrit = r.Chance(1, 4)
 	return pl
 }
 
@@ -227,6 +271,55 @@ func genSchedule(pl *Plan, steps [][]int64, hot [][]int64) []Quantum {
 	}
 	var q []Quantum
 	switch pl.Strategy {
+	case "syncstall", "stallentry":
+		// park one task inside its k-th operation - at its j-th statement that uses a synchronisation
+		// primitive (race-detector-silent logic errors live between such statements), or a few
+		// statements after the operation began - let the others complete operations, resume
+		i := r.Intn(nt)
+		k := 0
+		if len(pl.Tasks[i]) > 0 {
+			k = r.Intn(len(pl.Tasks[i]))
+		}
+		for j := 0; j < k; j++ {
+			q = append(q, Quantum{T: i, Kind: rt.KOpEnd})
+		}
+		if pl.Strategy == "syncstall" {
+			q = append(q, Quantum{T: i, Kind: rt.KSync, N: int64(r.Range(1, 8))})
+		} else {
+			q = append(q, Quantum{T: i, N: int64(r.Range(1, 40))})
+		}
+		var others []int
+		for t := 0; t < nt; t++ {
+			if t != i {
+				others = append(others, t)
+			}
+		}
+		for x := len(others) - 1; x > 0; x-- {
+			j := r.Intn(x + 1)
+			others[x], others[j] = others[j], others[x]
+		}
+		switch r.Intn(3) {
+		case 0:
+			for _, t := range others {
+				q = append(q, Quantum{T: t, Kind: rt.KTaskEnd})
+			}
+		case 1:
+			n := r.Range(1, 4)
+			for j := 0; j < n; j++ {
+				for _, t := range others {
+					q = append(q, Quantum{T: t, Kind: rt.KOpEnd})
+				}
+			}
+		default:
+			// a second task parked at a synchronisation statement while the first is still parked
+			if len(others) > 0 {
+				q = append(q, Quantum{T: others[0], Kind: rt.KSync, N: int64(r.Range(1, 8))})
+				for _, t := range others[1:] {
+					q = append(q, Quantum{T: t, Kind: rt.KTaskEnd})
+				}
+			}
+		}
+		q = append(q, Quantum{T: i, Kind: rt.KTaskEnd})
 	case "sequential":
 		for t := 0; t < nt; t++ {
 			q = append(q, Quantum{T: t, Kind: rt.KTaskEnd})
@@ -302,10 +395,32 @@ func genSchedule(pl *Plan, steps [][]int64, hot [][]int64) []Quantum {
 		// park one task mid-call at a chosen statement until the others completed k operations (or all)
 		i := r.Intn(nt)
 		var n int64 = 1
-		if len(hot[i]) > 0 && r.Chance(2, 3) {
+		// where to park: caches and lazily created state are consulted when an operation begins and
+		// written when it ends, so operation boundaries get their own share next to the statements
+		// of files that hold in-flight state and the uniform choice
+		opStart := func(k int) int64 {
+			var o int64
+			for j := 0; j < k; j++ {
+				o += steps[i][j]
+			}
+			return o
+		}
+		switch k := r.Intn(4); {
+		case k == 0 && len(steps[i]) > 0: // just after an operation has begun
+			op := r.Intn(len(steps[i]))
+			n = opStart(op) + int64(r.Range(1, 15))
+		case k == 1 && len(steps[i]) > 0: // just before an operation ends
+			op := r.Intn(len(steps[i]))
+			n = opStart(op) + steps[i][op] - int64(r.Range(0, 14))
+		case k == 2 && len(hot[i]) > 0:
 			n = hot[i][r.Intn(len(hot[i]))] + int64(r.Intn(3))
-		} else if total[i] > 0 {
-			n = int64(r.U64()%uint64(total[i])) + 1
+		default:
+			if total[i] > 0 {
+				n = int64(r.U64()%uint64(total[i])) + 1
+			}
+		}
+		if n < 1 {
+			n = 1
 		}
 		q = append(q, Quantum{T: i, N: n})
 		var others []int
@@ -544,39 +659,46 @@ func runSched(pl *Plan, atomic bool, keepTrace bool) (res SchedResult) {
 	res.Faults = map[string]int{}
 	nt := len(pl.Tasks)
 
-	// ---- phase 1: "run alone" reference on a twin world
-	rt.Mode = 1
-	rt.Limit = 0
-	twin := buildSchedWorld(pl)
+	// ---- "run alone" reference on a twin world (before or after the scheduled run, see Plan.Order)
 	want := make([][]string, nt)
 	steps := make([][]int64, nt)
 	hot := make([][]int64, nt)
-	for t := 0; t < nt; t++ {
-		w := twin.taskWorld(pl)
-		var base int64
-		for k, op := range pl.Tasks[t] {
-			rt.Count = 0
-			rt.TraceOn, rt.Trace = true, rt.Trace[:0]
-			want[t] = append(want[t], twin.execTaskOp(w, k, op))
-			rt.TraceOn = false
-			steps[t] = append(steps[t], rt.Count)
-			for i, s := range rt.Trace {
-				if hotSite[s] {
-					hot[t] = append(hot[t], base+int64(i)+1)
+	reference := func() bool {
+		rt.Mode = 1
+		rt.Limit = 0
+		twin := buildSchedWorld(pl)
+		for t := 0; t < nt; t++ {
+			w := twin.taskWorld(pl)
+			var base int64
+			for k, op := range pl.Tasks[t] {
+				rt.Count = 0
+				rt.TraceOn, rt.Trace = true, rt.Trace[:0]
+				want[t] = append(want[t], twin.execTaskOp(w, k, op))
+				rt.TraceOn = false
+				steps[t] = append(steps[t], rt.Count)
+				for i, s := range rt.Trace {
+					if hotSite[s] {
+						hot[t] = append(hot[t], base+int64(i)+1)
+					}
 				}
+				base += rt.Count
 			}
-			base += rt.Count
+		}
+		if d := lateInit(globals0.Diff(fpGlobals()), &res); len(d) > 0 && res.Clause == "" {
+			res.Clause = "C14.shared-unchanged"
+			res.Witness = map[string]string{"changed": strings.Join(d, ","), "when": "sequential run of the plan's operations (package-level variable modified after initialisation)"}
+			return false
+		}
+		return true
+	}
+	concFirst := pl.Order == "concurrent-first"
+	if !concFirst {
+		if !reference() {
+			return
 		}
 	}
-	fpTwin := fpObjects(twin.names, twin.objs)
-	_ = fpTwin
-	if d := lateInit(globals0.Diff(fpGlobals()), &res); len(d) > 0 {
-		res.Clause = "C14.shared-unchanged"
-		res.Witness = map[string]string{"changed": strings.Join(d, ","), "when": "sequential run of the plan's operations (package-level variable modified after initialisation)"}
-		return
-	}
 
-	// ---- phase 2: the scheduled run on fresh shared objects
+	// ---- the scheduled run on fresh shared objects
 	sched := pl.Schedule
 	if len(sched) == 0 {
 		sched = genSchedule(pl, steps, hot)
@@ -584,13 +706,14 @@ func runSched(pl *Plan, atomic bool, keepTrace bool) (res SchedResult) {
 	if atomic {
 		var a []Quantum
 		for _, q := range sched {
-			if q.Kind == rt.KStmts {
+			if q.Kind == rt.KStmts || q.Kind == rt.KSync {
 				q = Quantum{T: q.T, Kind: rt.KOpEnd}
 			}
 			a = append(a, q)
 		}
 		sched = a
 	}
+	rt.ParkInCrit = pl.ParkInCrit
 	res.Schedule = sched
 	sw := buildSchedWorld(pl)
 	fp0 := fpObjects(sw.names, sw.objs)
@@ -637,6 +760,9 @@ func runSched(pl *Plan, atomic bool, keepTrace bool) (res SchedResult) {
 	}
 	rt.Mode = 1
 	res.ILHash = il.h
+	if concFirst {
+		reference()
+	}
 	// ---- oracles after the join
 	if d := fp0.Diff(fpObjects(sw.names, sw.objs)); len(d) > 0 {
 		viol("C14.shared-unchanged", "changed", strings.Join(d, ","), "when", "after all tasks finished")
@@ -743,7 +869,7 @@ func schedLoop(pl *Plan, sched []Quantum, tasks []*rt.Task, sw *schedWorld, fp0 
 				default:
 				}
 			}
-			timer.Reset(8 * time.Second)
+			timer.Reset(3 * time.Second)
 			select {
 			case ev = <-rt.ToSched:
 			case <-timer.C:
@@ -788,6 +914,7 @@ func schedInit() {
 	setMenu()
 	tblSets = setMenu()
 	initHotSites()
+	rt.InitSyncSites()
 	globals0 = fpGlobals()
 	globalsZero = zeroGlobals()
 }
@@ -805,7 +932,7 @@ func schedWorker() {
 			_ = os.WriteFile(prog, []byte(fmt.Sprint(i)), 0o644)
 		}
 		pl := genSchedPlan(seed, i)
-		res := runSched(&pl, *fAtomic, false)
+		res := runSched(&pl, *fAtomic || i == *fAtomic1, false)
 		if res.Blocked {
 			out.Blocked++
 			out.BlockedRun = i
@@ -838,12 +965,12 @@ func schedWorker() {
 		}
 		if res.Clause != "" {
 			pl.Schedule = res.Schedule
-			out.Viol = &FoundViolation{Run: i, Plan: pl, V: Violation{Clause: res.Clause, Witness: res.Witness}}
+			out.Viol = &FoundViolation{From: *fOffset, Run: i, Plan: pl, V: Violation{Clause: res.Clause, Witness: res.Witness}}
 			break
 		}
 		if (i/(*fStride))%25 == 0 {
 			pl2 := genSchedPlan(seed, i)
-			res2 := runSched(&pl2, *fAtomic, false)
+			res2 := runSched(&pl2, *fAtomic || i == *fAtomic1, false)
 			if res2.ILHash != res.ILHash || res2.ResHash != res.ResHash {
 				out.Mismatch = append(out.Mismatch, i) // see worldWorker
 			} else {
@@ -882,6 +1009,8 @@ func schedTrace(pl *Plan) []string {
 			qs = append(qs, fmt.Sprintf("t%d:%d", q.T, q.N))
 		case rt.KOpEnd:
 			qs = append(qs, fmt.Sprintf("t%d:op", q.T))
+		case rt.KSync:
+			qs = append(qs, fmt.Sprintf("t%d:until-sync#%d", q.T, q.N))
 		default:
 			qs = append(qs, fmt.Sprintf("t%d:end", q.T))
 		}
@@ -890,7 +1019,7 @@ func schedTrace(pl *Plan) []string {
 			break
 		}
 	}
-	t = append(t, "schedule ("+pl.Strategy+"): "+strings.Join(qs, " "))
+	t = append(t, "schedule ("+pl.Strategy+", "+map[bool]string{true: "scheduled run before the run-alone reference", false: "run-alone reference first"}[pl.Order == "concurrent-first"]+"): "+strings.Join(qs, " "))
 	return t
 }
 
@@ -914,6 +1043,15 @@ func schedOne() {
 	var pl Plan
 	if err := json.Unmarshal(data, &pl); err != nil {
 		infra("plan: %v", err)
+	}
+	// prelude: what the reporting worker process had executed before (mirrors schedWorker exactly)
+	for i := *fPreFrom; i >= 0 && i < *fPreTo; i++ {
+		p0 := genSchedPlan(masterSeed(), i)
+		runSched(&p0, false, false)
+		if i%25 == 0 {
+			p1 := genSchedPlan(masterSeed(), i)
+			runSched(&p1, false, false)
+		}
 	}
 	res := runSched(&pl, *fAtomic, true)
 	b, _ := json.Marshal(res)
@@ -948,6 +1086,11 @@ func raceSignature(report string) string {
 
 // runOne executes one plan in a fresh child (plain or race build) and returns what happened.
 func runOne(bin string, pl *Plan, tmp string, atomic bool) oneResult {
+	return runOnePre(bin, pl, tmp, atomic, nil)
+}
+
+// runOnePre: like runOne, after re-executing a prelude of earlier runs in the same child process.
+func runOnePre(bin string, pl *Plan, tmp string, atomic bool, pre *Prelude) oneResult {
 	pf := filepath.Join(tmp, fmt.Sprintf("one-%d.json", time.Now().UnixNano()))
 	b, _ := json.Marshal(pl)
 	_ = os.WriteFile(pf, b, 0o644)
@@ -958,6 +1101,9 @@ func runOne(bin string, pl *Plan, tmp string, atomic bool) oneResult {
 	args := []string{"-mode", "schedone", "-file", pf, "-out", of, "-verif", *fVerif}
 	if atomic {
 		args = append(args, "-atomic")
+	}
+	if pre != nil {
+		args = append(args, "-seed", fmt.Sprint(pre.Seed), "-prelude-from", fmt.Sprint(pre.Offset), "-prelude-to", fmt.Sprint(pre.Upto))
 	}
 	cmd := exec.Command(bin, args...)
 	cmd.Env = append(os.Environ(), "GORACE=halt_on_error=1 exitcode=66 log_path="+rl)
@@ -1073,14 +1219,16 @@ func runSchedChildren(bin string, n int, tag string, capSec int) ([]*WorkerOut, 
 	type job struct {
 		id, from, to int
 		atomic       bool
+		atomic1      int // this one run with operation-atomic quanta (-1: none)
 	}
+	blocks := 0
 	var queue []job
 	for a, id := 0, 0; a < n; a, id = a+chunk, id+1 {
 		b := a + chunk
 		if b > n {
 			b = n
 		}
-		queue = append(queue, job{id: id, from: a, to: b})
+		queue = append(queue, job{id: id, from: a, to: b, atomic1: -1})
 	}
 	type child struct {
 		cmd *exec.Cmd
@@ -1092,6 +1240,9 @@ func runSchedChildren(bin string, n int, tag string, capSec int) ([]*WorkerOut, 
 		args := []string{"-mode", "worker", "-prop", "C14", "-seed", fmt.Sprint(masterSeed()), "-runs", fmt.Sprint(j.to), "-stride", "1", "-offset", fmt.Sprint(j.from), "-out", out, "-verif", *fVerif, "-tmp", tmp}
 		if j.atomic {
 			args = append(args, "-atomic")
+		}
+		if j.atomic1 >= 0 {
+			args = append(args, "-atomicrun", fmt.Sprint(j.atomic1))
 		}
 		cmd := exec.Command(bin, args...)
 		lf, _ := os.Create(out + ".log")
@@ -1161,16 +1312,23 @@ func runSchedChildren(bin string, n int, tag string, capSec int) ([]*WorkerOut, 
 				outs = append(outs, readOut(c))
 			case 4:
 				o := readOut(c)
-				if c.j.atomic {
+				if c.j.atomic || c.j.atomic1 == o.BlockedRun {
 					infra("C14 worker blocked even with operation-atomic quanta (run %d)", o.BlockedRun)
 				}
 				outs = append(outs, o)
-				// the rest of this chunk, and every chunk not yet started, with operation-atomic quanta:
-				// the library blocks on a primitive the simulator does not own
-				for i := range queue {
-					queue[i].atomic = true
+				blocks++
+				// A task was parked with a lock in its hands (the simulator does not own the library's
+				// locks). The process is poisoned (a leaked goroutine still holds the lock), so the rest
+				// of the chunk goes to a fresh process, the blocked plan with operation-atomic quanta.
+				// If this keeps happening, everything left is run operation-atomically.
+				nj := job{id: c.j.id + 100000*blocks, from: o.BlockedRun, to: c.j.to, atomic1: o.BlockedRun}
+				if blocks > 12 {
+					nj.atomic = true
+					for i := range queue {
+						queue[i].atomic = true
+					}
 				}
-				queue = append([]job{{id: c.j.id + 100000, from: o.BlockedRun, to: c.j.to, atomic: true}}, queue...)
+				queue = append([]job{nj}, queue...)
 			case 66:
 				pd, _ := os.ReadFile(c.out + ".progress")
 				var run int
@@ -1182,7 +1340,7 @@ func runSchedChildren(bin string, n int, tag string, capSec int) ([]*WorkerOut, 
 					text += string(d)
 				}
 				pl := genSchedPlan(masterSeed(), run)
-				v := &FoundViolation{Run: run, Plan: pl, V: Violation{Clause: "C14.race", Witness: map[string]string{"signature": raceSignature(text), "report": clip(text, 6000), "atomic": fmt.Sprint(c.j.atomic)}}}
+				v := &FoundViolation{From: c.j.from, Run: run, Plan: pl, V: Violation{Clause: "C14.race", Witness: map[string]string{"signature": raceSignature(text), "report": clip(text, 6000), "atomic": fmt.Sprint(c.j.atomic)}}}
 				if viol == nil || v.Run < viol.Run {
 					viol = v
 				}
@@ -1307,8 +1465,18 @@ func reportSchedViolation(fv *FoundViolation, race bool, mr, mp *Merged, t0 time
 	if !matches(first) && clause == "C14.race" && first.Race {
 		sig = first.RaceSig // batch-mode report may name other frames first; keep the alone-run signature
 	}
+	var pre *Prelude
 	if !matches(first) {
-		infra("C14 violation %s of run %d did not reproduce alone in a fresh process", clause, fv.Run)
+		// The library may carry process-wide state (a cache in the package-level default parser): the
+		// violation then needs what the earlier runs of the reporting process left behind.
+		pre = &Prelude{Seed: masterSeed(), Offset: fv.From, Stride: 1, Upto: fv.Run}
+		first = runOnePre(bin, &fv.Plan, *fTmp, atomic, pre)
+		if !matches(first) && clause == "C14.race" && first.Race {
+			sig = first.RaceSig
+		}
+		if !matches(first) {
+			infra("C14 violation %s of run %d reproduces neither alone nor after re-executing runs [%d,%d) in a fresh process", clause, fv.Run, fv.From, fv.Run)
+		}
 	}
 	pl := fv.Plan
 	if len(pl.Schedule) == 0 && !first.Race {
@@ -1316,25 +1484,31 @@ func reportSchedViolation(fv *FoundViolation, race bool, mr, mp *Merged, t0 time
 	}
 	if len(pl.Schedule) == 0 {
 		// race child died before reporting its schedule: obtain it from a plain child
-		p := runOne(os.Args[0], &fv.Plan, *fTmp, atomic)
+		p := runOnePre(os.Args[0], &fv.Plan, *fTmp, atomic, pre)
 		pl.Schedule = p.Res.Schedule
-		if !matches(runOne(bin, &pl, *fTmp, atomic)) {
+		if !matches(runOnePre(bin, &pl, *fTmp, atomic, pre)) {
 			infra("C14 violation does not reproduce under its explicit schedule")
 		}
 	}
 	// a candidate counts only if it reproduces twice in fresh processes (keeps the minimised plan
 	// away from anything whose detection depends on accidental synchronisation inside dependencies)
 	pred := func(p *Plan) bool {
-		return matches(runOne(bin, p, *fTmp, atomic)) && matches(runOne(bin, p, *fTmp, atomic))
+		return matches(runOnePre(bin, p, *fTmp, atomic, pre)) && matches(runOnePre(bin, p, *fTmp, atomic, pre))
 	}
-	small := shrinkSched(pl, pred)
-	r1 := runOne(bin, &small, *fTmp, atomic)
-	r2 := runOne(bin, &small, *fTmp, atomic)
+	small := pl
+	if pre == nil || !race {
+		small = shrinkSched(pl, pred) // with a prelude every candidate re-executes it: plain build only
+	}
+	r1 := runOnePre(bin, &small, *fTmp, atomic, pre)
+	r2 := runOnePre(bin, &small, *fTmp, atomic, pre)
 	if !matches(r1) || !matches(r2) {
 		b, _ := json.Marshal(small)
 		infra("minimised C14 plan does not reproduce deterministically: want clause %s sig %q; run1 race=%v sig=%q clause=%q; run2 race=%v sig=%q clause=%q\nplan: %s", clause, sig, r1.Race, r1.RaceSig, r1.Res.Clause, r2.Race, r2.RaceSig, r2.Res.Clause, b)
 	}
-	rep := Replay{Property: "C14", Clause: clause, Plan: small, Trace: schedTrace(&small)}
+	rep := Replay{Property: "C14", Clause: clause, Plan: small, Trace: schedTrace(&small), Prelude: pre}
+	if pre != nil {
+		rep.Trace = append([]string{fmt.Sprintf("prelude: runs [%d,%d) of seed %d are re-executed in the same process first (the library carries process-wide state)", pre.Offset, pre.Upto, pre.Seed)}, rep.Trace...)
+	}
 	if clause == "C14.race" {
 		rep.Witness = map[string]string{"signature": r1.RaceSig, "report": clip(r1.RaceText, 8000), "atomic": fmt.Sprint(atomic)}
 	} else {
@@ -1486,7 +1660,7 @@ func replaySched(rep *Replay, kf *KnownFindings) int {
 		bin = *fRace
 	}
 	atomic := rep.Witness["atomic"] == "true"
-	r := runOne(bin, &rep.Plan, *fTmp, atomic)
+	r := runOnePre(bin, &rep.Plan, *fTmp, atomic, rep.Prelude)
 	for _, l := range schedTrace(&rep.Plan) {
 		fmt.Println("   ", l)
 	}
